@@ -26,6 +26,8 @@ RULE = (
     "is the deepest populated level. 'history' cases: sequences of tile_fits calls on one output directory (fresh, repeated, repeated "
     "with override): after each call the returned Builder's imgset/place fields equal index_rel.wtml on disk. "
     "Non-trivial: a workflow writing >= 2 tiles, a template block, or a history with >= 2 calls; distinct by spec."
+    ' Also: histories with override from another input, an absolutised index.wtml written next to index_rel.wtml, interrupted first run'
+    's, and TOAST pyramids with two-digit level numbers.'
 )
 ASSUMPTIONS = ["WWT template convention: {1}=level, {2}=x, {3}=y", "HiPS, AstroPix/Djangoplicity network sources and Azure stores are not covered"]
 EXHAUSTIVE = {"quick": "template expansion for all positions to depth 6, both schemes", "thorough": "template expansion for all positions to depth 6, both schemes, all four formats"}
